@@ -1,5 +1,5 @@
 (* C16/Run.v — evaluation of the model and of the independent specification on harness cases. *)
-From Relic Require Import Base.Prelude Base.Enc Base.Val Generated.C16_gen C16.Model C16.VModel.
+From Relic Require Import Base.Prelude Base.Enc Base.Val Generated.C16_gen C16.Model C16.VModel C16.Pss.
 
 Definition status_of {A} (r : result A) : Z := match r with Ok _ => 0 | Err e => e | Panic _ => 99 end.
 Definition VBs (l : list bytes) : val := VL (map VB l).
@@ -230,6 +230,14 @@ Definition run_sdverify (v : val) : val :=
   | _ => VL [VZ 97; VZ 0]
   end.
 
+(* kind 7: [saltOpt; modBits; hLen] -> [signed?; declared; used; spec salt; spec verifier accepts; call sites ok] *)
+Definition run_pss (v : val) : val :=
+  let o := vz (vnth 0 v) in let m := vz (vnth 1 v) in let h := vz (vnth 2 v) in
+  match pss_sign_run o m h with
+  | Some (d, u) => VL [VZ 1; VZ d; VZ u; VZ (spec_salt o m h); of_bool (spec_verifier_accepts d u); of_bool pss_call_sites_ok]
+  | None => VL [VZ 0; VZ 0; VZ 0; VZ (spec_salt o m h); VZ 0; of_bool pss_call_sites_ok]
+  end.
+
 Definition run (v : val) : val :=
   let k := vz (vnth 0 v) in
   if k =? 0 then run_roundtrip (vb (vnth 1 v))
@@ -238,4 +246,5 @@ Definition run (v : val) : val :=
   else if k =? 4 then run_verify (vnth 1 v)
   else if k =? 5 then run_tsverify (vnth 1 v)
   else if k =? 6 then run_sdverify (vnth 1 v)
+  else if k =? 7 then run_pss (vnth 1 v)
   else run_int (vb (vnth 1 v)).
